@@ -895,9 +895,9 @@ def run(check: core.Check) -> None:
         # (quick: Calls.emit.quick.cfg carries the invariants of Calls.quick.cfg too -- one run proves and emits)
         small_jobs = [("CallsEmit", ecfg0, {}), ("CallsEmit", ncfg0, {})] + small_jobs
     core.scratch()
-    pool = ThreadPoolExecutor(max_workers=5 if quick else 3)
-    started = {(m, c): pool.submit(core.run_tlc, m, c, workers=4, timeout=3000, **kw) for m, c, kw in small_jobs}
-    sim_job = pool.submit(core.simulate_cases, "CallsEmit", "Calls.sim.cfg", 500 if quick else 20000, depth=8,
+    pool = ThreadPoolExecutor(max_workers=8 if quick else 3)
+    started = {(m, c): pool.submit(core.run_tlc, m, c, workers=2 if quick else 4, timeout=3000, **kw) for m, c, kw in small_jobs}
+    sim_job = pool.submit(core.simulate_cases, "CallsEmit", "Calls.sim.cfg", 300 if quick else 20000, depth=8,
                           seed=check.seed + 11, check=check, first_num=300 if quick else None)
 
     def tlc(module: str, cfg_name: str, **kw: Any) -> core.TLCResult:
@@ -1048,18 +1048,21 @@ def run(check: core.Check) -> None:
         "<= 2 keywords, <= 3 arguments; shapes plain / star / mixed / mixedk; bodies return every parameter (landing slots "
         "validated against CPython); quick: all <= 2-argument calls + 400 sampled, thorough: all"
     )
-    counts = judge(check, libdata, cases, "tlc-exhaustive")
+    # 3. beyond the exhaustive bound: TLC random simulation of the full literal set with more arguments (quick: judged
+    # in the same adjudication batches as the enumerated cases)
+    sim = [c for c in sim_job.result() if not (isinstance(c, dict) and "lib" in c)]
+    pool.shutdown()
+    if quick:
+        counts = judge(check, libdata, cases + sim, "tlc-exhaustive+simulate")
+    else:
+        counts = judge(check, libdata, cases, "tlc-exhaustive")
+        judge(check, libdata, sim, "tlc-simulate")
     check.cov["verdict_counts"] = counts
     corrupted_default_selftest(libdata)
     check.cov["sensitivity"] += (
         "; corrupted observations (d_none(None) / Box(0) / DK(x=1, y=0) recorded as not diagnosed, d_none() recorded as "
         "diagnosed, NT(1) recorded as inferring NT(2, 'a')) are flagged by the trace specification"
     )
-    # 3. beyond the exhaustive bound: TLC random simulation of the full literal set with more arguments
-    sim = sim_job.result()
-    pool.shutdown()
-    sim = [c for c in sim if not (isinstance(c, dict) and "lib" in c)]
-    judge(check, libdata, sim, "tlc-simulate")
     # (the three-argument functions are only in the thorough tier's exhaustive set)
     optional = {"star-params-merged-diagnostic"} if quick else set()
     missing = [k for k, n in check.cov["outcome_classes"].items() if n == 0 and k not in optional]
@@ -1081,14 +1084,21 @@ def corrupted_default_selftest(libdata: dict) -> None:
         {"fn": "d_none", "shape": "plain", "pos": [], "kw": []},
         {"fn": "NT", "shape": "plain", "pos": [I(1)], "kw": []},
     ]
-    obs = observe(libdata, cases)
-    if core.adjudicate("CallsTrace", TRACE_CFG, obs)[0]:
-        return  # genuine verdicts on these calls are reported by the main run; nothing to self-test against
+    import copy
+
+    clean = observe(libdata, cases)
+    obs = copy.deepcopy(clean)
     for o in obs[:3]:
         o["nia"] = 0           # "the explicit argument equal to the ill-typed default was not diagnosed"
     obs[3]["nia"] = 1          # "the omitted default was diagnosed"
     obs[4]["inferred"] = {"k": "known", "o": {"c": "NT", "v": "", "items": [I(2), {"c": "str", "v": "a", "items": []}]}}
-    bad, _ = core.adjudicate("CallsTrace", TRACE_CFG, obs)
+    n = len(clean)
+    for o in obs:
+        o["tid"] += n
+    both, _ = core.adjudicate("CallsTrace", TRACE_CFG, clean + obs)     # one TLC run: clean copies, then corrupted ones
+    if any(tid < n for tid in both):
+        return  # genuine verdicts on these calls are reported by the main run; nothing to self-test against
+    bad = {tid - n: v for tid, v in both.items()}
     want = {0: "viol:Diagnosis", 1: "viol:Diagnosis", 2: "viol:Diagnosis", 3: "viol:Diagnosis", 4: "viol:ResultInInferred"}
     missing = {i: v for i, v in want.items() if v not in bad.get(i, [])}
     if missing:
